@@ -217,6 +217,15 @@ theorem C08_block_V1 (dt : Data ℝ) (hw : WellFormed dt) (hp : NoSelfPair dt) (
         - ∑ d ∈ range dt.D, (v1Blk dt st m).muPart dt.y st.Mu st.prec d * x d :=
   block_V1 dt hw hp st h m hm x
 
+/-- the canonical form behind `C08_block_{W,V2,V1}`: for a block without self pairs, under the cache invariant in the
+    form `Mu = base + ⟨design, cur⟩`, the code's `Q` is `prec·XᵀX + diag λ` and its `mu_part` is `prec·Xᵀ(y − base)`
+    for the design rows `X` of the block -/
+theorem C08_block_canonical (b : Blk ℝ) (hns : b.NoSelf) (y Mu base : ℕ → ℝ) (prec : ℝ)
+    (hc : ∀ n, n < b.N → Mu n = base n + ∑ d ∈ range b.D, b.design n d * b.cur d) (d e : ℕ) :
+    b.Q prec d e = prec * (∑ n ∈ range b.N, b.design n d * b.design n e) + (if d = e then b.lam d else 0)
+    ∧ b.muPart y Mu prec d = prec * ∑ n ∈ range b.N, b.design n d * (y n - base n) :=
+  ⟨b.Q_spec hns prec d e, b.muPart_spec hns y Mu base prec hc d⟩
+
 /-! ## 4. intercept, bounds, order, export -/
 
 /-- under the default `fake_intercept` the intercept is held at the mean of the transformed observations: that is
@@ -410,6 +419,25 @@ theorem C08_gamma_gam (dt : Data ℝ) (W : ℕ → ℕ → ℝ) (g : ℕ → ℝ
   by_cases h0 : d = 0
   · subst h0; simp only [if_true, Nat.sub_zero]; ring
   · simp only [h0, if_false]; ring
+
+/-- after `_prec_W_step`: `gam[d]` holds the drawn values and `tau = clip(cumprod(gam))` -/
+theorem C08_tau_cumprod (dt : Data ℝ) (ω : Draws ℝ) (st : State ℝ) (d : ℕ) :
+    (precWStep dt ω st).tau d = clip (cumprod (precWStep dt ω st).gam d) (lowOf (natTo dt.N)) big
+    ∧ (d < dt.D → (precWStep dt ω st).gam d = ω.gam d) := by
+  refine ⟨rfl, fun hd => ?_⟩
+  show (iter dt.D (gamBlock dt ω) st).gam d = ω.gam d
+  have : ∀ n, d < n → (iter n (gamBlock dt ω) st).gam d = ω.gam d := by
+    intro n
+    induction n with
+    | zero => intro h; omega
+    | succ k ih =>
+      intro h
+      rw [iter]
+      show upd (iter k (gamBlock dt ω) st).gam k (ω.gam k) d = ω.gam d
+      by_cases hk : d = k
+      · subst hk; exact upd_same _ _ _
+      · rw [upd_other _ _ _ _ hk]; exact ih (by omega)
+  exact this dt.D hd
 
 /-! ## 6. the multivariate normal draw
 
